@@ -5,6 +5,7 @@ stdin : {"mode": "runs", "root": dir, "runs": [cfg, ...]}   cfg = {name, sampler
         {"mode": "seedfn", "seeds": [...]}                   the real configure_random_seed on a namespace object
 stdout: {"runs": [{name, digests: [per repeat], parts, evals, iteration, ...}]}
 """
+import copy
 import hashlib
 import json
 import os
@@ -82,15 +83,86 @@ class Opaque:
         self._p.join()
 
 
+SITES = set()
+_RECORDER = {"on": False}
+NP_FUNCS = ["rand", "randn", "uniform", "permutation", "choice", "multinomial", "randint", "normal", "random_sample",
+            "random", "shuffle", "standard_normal", "exponential", "beta", "gamma", "chisquare"]
+TORCH_FUNCS = ["rand", "randn", "randint", "randperm", "normal", "multinomial", "bernoulli", "rand_like", "randn_like"]
+
+
+def install_recorder():
+    """wrap the numpy / torch global-generator entry points: record which nessai function called them
+    (file under nessai/, function name), then call through unchanged (no effect on the random streams)"""
+    if _RECORDER["on"]:
+        return
+    import functools
+    import torch
+    import nessai
+    root = os.path.dirname(os.path.abspath(nessai.__file__)) + os.sep
+
+    def wrap(fn):
+        @functools.wraps(fn)
+        def inner(*a, **k):
+            f = sys._getframe(1)
+            fname = f.f_code.co_filename
+            if fname.startswith(root):
+                SITES.add(fname[len(root):] + "::" + f.f_code.co_name)
+            return fn(*a, **k)
+        return inner
+
+    for n in NP_FUNCS:
+        if hasattr(np.random, n):
+            setattr(np.random, n, wrap(getattr(np.random, n)))
+    for n in TORCH_FUNCS:
+        if hasattr(torch, n):
+            setattr(torch, n, wrap(getattr(torch, n)))
+    try:
+        from scipy.stats import rv_continuous
+        real_rvs = rv_continuous.rvs
+
+        def rvs(self, *a, **k):
+            f = sys._getframe(2)
+            fname = f.f_code.co_filename
+            if fname.startswith(root):
+                SITES.add(fname[len(root):] + "::" + f.f_code.co_name)
+            return real_rvs(self, *a, **k)
+        rv_continuous.rvs = rvs
+    except Exception:
+        pass
+    _RECORDER["on"] = True
+
+
+def make_angle_model():
+    from nessai.model import Model
+
+    class A(Model):
+        """an angle and a linear parameter; exactly rounded likelihood"""
+
+        def __init__(self):
+            self.names = ["phi", "y"]
+            self.bounds = {"phi": [0.0, 2 * np.pi], "y": [-5.0, 5.0]}
+
+        def log_prior(self, x):
+            return np.log(self.in_bounds(x), dtype=float) - np.log(20 * np.pi)
+
+        def log_likelihood(self, x):
+            a = np.round((x["phi"] - 3.0) * 1024.0) / 1024.0
+            b = np.round(x["y"] * 1024.0) / 1024.0
+            return -0.5 * (a * a + b * b)
+
+    return A()
+
+
 def one_run(cfg, outdir):
     import torch
     torch.set_num_threads(1)
     from nessai.flowsampler import FlowSampler
-    model = make_model(cfg.get("allow_vectorised", True))
+    install_recorder()
+    model = make_angle_model() if cfg.get("model") == "angle" else make_model(cfg.get("allow_vectorised", True))
     if cfg.get("parallelise_prior"):
         model.parallelise_prior = True
     kw = dict(nlive=cfg.get("nlive", 50), plot=False, seed=cfg["seed"], signal_handling=False, output=outdir,
-              resume=False, checkpointing=False, **FLOW)
+              resume=False, checkpointing=False, **copy.deepcopy(FLOW))     # nessai mutates the config dicts
     pool = None
     if cfg.get("user_pool"):
         import multiprocessing
@@ -109,9 +181,14 @@ def one_run(cfg, outdir):
                   poolsize=cfg.get("poolsize", 100))
     else:
         kw.update(importance_nested_sampler=True, max_iteration=cfg.get("max_iteration", 3), min_samples=10)
+    extra_kw = dict(cfg.get("extra") or {})
+    for k_ in ("flow_config", "training_config"):
+        if k_ in extra_kw:
+            kw[k_] = dict(kw[k_], **extra_kw.pop(k_))
+    kw.update(extra_kw)
     try:
         fs = FlowSampler(model, **kw)
-        fs.run(plot=False, save=False)
+        fs.run(plot=False, save=False, **(cfg.get("run_kwargs") or {}))
         ns = fs.ns
         if cfg["sampler"] == "std":
             samples = np.array(ns.nested_samples)
@@ -130,7 +207,9 @@ def one_run(cfg, outdir):
             extra = {"levels": int(ns.proposal.flow.n_models), "logZ": float(ns.log_evidence)}
         evals = int(ns.model.likelihood_evaluations)
         parts["counts"] = h(np.array([evals, int(ns.iteration)], dtype=np.int64))
-        return {"parts": parts, "evals": evals, "iteration": int(ns.iteration),
+        if cfg["sampler"] == "ins" and getattr(ns, "final_samples_unit", None) is not None:
+            parts["final_samples"] = h(ns.final_samples_unit)
+        return {"parts": parts, "evals": evals, "iteration": int(ns.iteration), "sites": sorted(SITES),
                 "requested_seed": cfg["seed"], "recorded_seed": None if ns.seed is None else int(ns.seed),
                 "vectorised": bool(getattr(model, "_vectorised_likelihood", None)), "n_pool": getattr(model, "n_pool", None),
                 **extra}
